@@ -370,3 +370,32 @@ def rule_parallel_arrays(ctx, rep, config="c-lib"):
                               "translation pass reads a stale number there -- TERM nodes with the attribute of another token, or an index outside the token array",
                               where=s_.where(), witness=[s_.where()])
     rep.floor("R16-parallel", "stores of sets into the parser list", n, 7)
+
+
+def rule_back_cost(ctx, rep, config="c-lib"):
+    rep.rule("R16-back", "find_error_pl_set counts one token for every set it walks back over except the sets made by a shift of `error' (they consumed no token): the "
+                         "increment of *cost is controlled by  core->term != term_error")
+    from .r5 import _controlling_conditions
+    p = ctx.prog(config)
+    f = p.fn("find_error_pl_set")
+    rep.cover(p, [f.name])
+    incs = []
+    for s_ in f.all_insts():
+        if s_.op == "store" and resolve_addr(f, s_.ops[1]).root == ("a", 1):
+            v = expr.lin(f, s_.ops[0], 0, 1)
+            if v.c == 1 and len(v.t) == 1:
+                incs.append(s_)
+    if len(incs) != 1:
+        raise AnalysisBroken("R16-back: %d increments of the cost in find_error_pl_set" % len(incs))
+    s_ = incs[0]
+    okc = False
+    for (c, pol) in _controlling_conditions(f, s_.block.name):
+        a, b = loaded_from(f, c.ops[0]), loaded_from(f, c.ops[1])
+        fields = set([(a.last_field() if a is not None else None), (b.last_field() if b is not None else None)])
+        if fields == set(["set_core.term", "grammar.term_error"]) and c.d["pred"] in ("eq", "ne") and (c.d["pred"] == "ne") == pol:
+            okc = True
+    if okc:
+        rep.ok("R16-back", "find_error_pl_set/error-sets-not-counted", sample={"increment": s_.where()})
+    else:
+        rep.violation("R16-back", "find_error_pl_set/error-sets-not-counted", "the backward cost also counts the sets made by shifting `error' in an earlier recovery: the first "
+                      "ignored token reported for the next recovery is too small (it can be -1, and build_pl then reads toks[-1])", where=s_.where(), witness=[s_.where()])
